@@ -242,6 +242,27 @@ func propertyAnchorFiles(verifDir, propID string) []string {
 	return nil
 }
 
+// propertyAnchorFilesAll lists every anchor file of the property (not only Go files).
+func propertyAnchorFilesAll(verifDir, propID string) []string {
+	b, err := os.ReadFile(filepath.Join(verifDir, "properties.jsonl"))
+	if err != nil {
+		return nil
+	}
+	for _, line := range strings.Split(string(b), "\n") {
+		var rec struct {
+			ID      string `json:"id"`
+			Anchors struct {
+				Files []string `json:"files"`
+			} `json:"anchors"`
+		}
+		if json.Unmarshal([]byte(line), &rec) != nil || rec.ID != propID {
+			continue
+		}
+		return rec.Anchors.Files
+	}
+	return nil
+}
+
 var sweepVerifDir = "/verif"
 
 func runSweep(prog *load.Program, propID string, selected []*core.Rule, base []core.Obligation, findings []core.Finding, limit, offset int, funcs map[*ast.FuncDecl]string) *sweepResult {
